@@ -6,7 +6,7 @@
    (Iter/Merged.v, Iter/Indexed.v, Iter/DBIter.v) mirror the Go iterators and take their children
    as black boxes that behave like cursors ([refines]). *)
 From GL Require Import Base.Bytes Base.Order Base.OrderProofs Codec.IKey Codec.IKeyProofs Codec.Block Codec.Table Codec.TableProofs
-  Lsm.Lsm Lsm.ReadPath Lsm.ReadPathMem Lsm.ReadPathProofs Lsm.IterPath Lsm.IterPathChild Lsm.IterPathLevel
+  Lsm.Lsm Lsm.LsmProofs Lsm.ReadPath Lsm.ReadPathMem Lsm.ReadPathProofs Lsm.IterPath Lsm.IterPathChild Lsm.IterPathLevel
   Lsm.IterPathProofs Lsm.IterPathAbs.
 From GL Require Mem.MemDB.
 From GL Require Import Iter.Cursor Iter.CursorProofs Iter.Merged Iter.MergedProofs Iter.Indexed Iter.IndexedProofs
@@ -253,6 +253,18 @@ Theorem C02_db_iterator_correct_bytes_gen : forall c, comparer_ok c -> forall p,
           (db_entries c mp tp crc decompress fname ufc verify ri auxm auxt st))) ms).
 Proof. exact db_iterator_bytes_gen. Qed.
 Print Assumptions C02_db_iterator_correct_bytes_gen.
+
+(* 9g. what lsm_view is, in terms of reads: the pairs an iterator at sequence number s walks are exactly the
+       (key, value) for which the read path of property C01 - lsm_get, which C01_read_path_refines proves equal
+       to DB.Get / Snapshot.Get computed on the bytes - finds that value.  Iterators and point reads agree.
+       Beyond wf_state this needs: no two stored entries share user key AND sequence number (every sequence
+       number is given to one write), and kinds are deletion or value (wf_bstate gives the latter). *)
+Theorem C02_view_agrees_with_get : forall c, comparer_ok c -> forall p, kparams_ok p -> forall st,
+  wf_state c p st -> uniq (all_entries st) ->
+  Forall (fun e => e_kind e = keyTypeDel p \/ e_kind e = keyTypeVal p) (all_entries st) ->
+  forall s u v, In (u, v) (live_pairs c p s (lsm_entries c st)) <-> lsm_get c p st u s = GFound v.
+Proof. exact view_agrees_with_get. Qed.
+Print Assumptions C02_view_agrees_with_get.
 
 (* 10. ERRORS AND RELEASE (Iter/IterErr.v: the error paths of merged_iter.go, indexed_iter.go, db_iter.go -
        iterErr, indexErr/dataErr, strict vs non-strict, setErr - and Release / use after Release /
